@@ -216,6 +216,10 @@ func checkC10(c *Ctx) {
 				if a.IsField("TableState", "LastPlayerGameAction") && Dominates(lastStore.Instr, ci) && p.reachesCallback(cs.Call.Common().StaticCallee(), "onGamePlayerActionUpdated") {
 					found = true
 				}
+				// … or the very pointer that is stored, dereferenced for the event (pga := build(); store pga; emit(*pga))
+				if ld, isLd := ci.Common().Args[1].(*ssa.UnOp); isLd && ld.Op == token.MUL && ld.X == lastStore.ValV && p.reachesCallback(cs.Call.Common().StaticCallee(), "onGamePlayerActionUpdated") {
+					found = true
+				}
 			}
 			c.Check(found, "R7", name+":event", where, "action event emitted with the stored last action", "no action event carrying the stored last action after the store")
 		}
